@@ -184,6 +184,8 @@ def _run_one(params):
     import signal
     t0 = time.time()
     try:
+        import faulthandler
+        faulthandler.register(signal.SIGUSR1, all_threads=False)
         signal.signal(signal.SIGALRM, _alarm)
         signal.alarm(TASK_TIMEOUT)
         try:
